@@ -877,11 +877,16 @@ fn join_chunks(chunks: Vec<Chunk>, options: &FormattingOptions) -> String {
                     }
                 } else {
                     // If the line only consists of comments, move them to the 'code' column
-                    if line.len() > options.whitespace.label_margin + options.whitespace.code_margin
-                    {
-                        let (label_code, comment) = line.split_at(
-                            options.whitespace.label_margin + options.whitespace.code_margin,
-                        );
+                    // (margins are measured in characters, not in bytes, since comments may contain any text)
+                    let margin =
+                        options.whitespace.label_margin + options.whitespace.code_margin;
+                    if line.chars().count() > margin {
+                        let split_idx = line
+                            .char_indices()
+                            .nth(margin)
+                            .map(|(idx, _)| idx)
+                            .unwrap_or(line.len());
+                        let (label_code, comment) = line.split_at(split_idx);
                         if label_code.trim().is_empty() {
                             line = format!(
                                 "{:<width$}{}",
